@@ -747,7 +747,10 @@ fn plans_for(mode: PlanMode, check: &str, prog: &Prog, kind: Kind, b: Budget, se
                     let mut p = base.clone();
                     p.panic = Some((e.ev, e.occ));
                     // some of the plans also carry dependencies that stall siblings
-                    if kind.is_concurrent() && n % 3 == 1 {
+                    // (not when the panicking expression is an operand expression, `w::mk`: it may be evaluated before the
+                    // receiver chain, so the reference order does not tell which events of its branch are still reached)
+                    let panic_is_mk = prog.ev(e.ev).map(|m| m.kind == EvKind::Mk).unwrap_or(false);
+                    if kind.is_concurrent() && n % 3 == 1 && !panic_is_mk {
                         p.deps = plans::linear_extension_deps(prog, kind, &r0, Some(e), &mut rng, 50);
                     }
                     out.push(p);
